@@ -359,6 +359,13 @@ def compare(I, st, op, a, b):
         yield st, {"Lt": ra < rb, "LtE": ra <= rb and (ra != 0 or rb != 0), "Gt": ra > rb, "GtE": ra >= rb and (ra != 0 or rb != 0)}[op]
         return
     if a is None or b is None or not (is_number(a) and is_number(b)):
+        # TypeError only where CPython certainly raises it (None / number / str / tuple of different kinds, or an object
+        # without the dunder); list < list, set < set, bytes, uninterpreted values ... are outside the model
+        def plain(v):
+            return v is None or is_number(v) or isinstance(v, (str, tuple)) or (isinstance(v, Ref) and st.get(v).kind == "obj")
+
+        if not (plain(a) and plain(b)) or obj_has(I, st, b, {"Lt": "__gt__", "LtE": "__ge__", "Gt": "__lt__", "GtE": "__le__"}[op]) is not None:
+            raise Unsupported("ordering comparison %s between %s and %s" % (op, type(a).__name__, type(b).__name__))
         yield st, exc("TypeError", "'%s' not supported between %r and %r" % (op, a, b))
         return
     yield st, ops.num_compare(op, a, b)
